@@ -678,7 +678,58 @@ def gen_C13(rng):
     return sc
 
 
+def io_pressure(rng):
+    """Ranged downloads sharing a tiny IO queue, one of them failing in the
+    middle, next to another failing transfer; shutdown while all are running."""
+    sc = base(rng, [('download', 1)], nmax=2, tight=True, short_reads=True, maxsize=30)
+    cfg = sc['config']
+    cfg['max_io_queue_size'] = rng.choice([1, 1, 2])
+    cfg['io_chunksize'] = rng.choice([1, 1, 2])
+    cfg['multipart_chunksize'] = rng.randint(2, 5)
+    cfg['multipart_threshold'] = rng.randint(1, 4)
+    cfg['max_request_concurrency'] = rng.choice([2, 3])
+    while len(sc['transfers']) < 2:
+        sc['transfers'].append(gen_transfer(rng, cfg, [('download', 1)]))
+    for t in sc['transfers']:
+        t['size'] = max(t['size'], cfg['multipart_threshold'] + cfg['multipart_chunksize'] * 2)
+        t['dst'] = rng.choice(['path', 'seekable', 'nonseekable'])
+        if t['dst'] != 'path':
+            t.pop('prev', None)
+        for sub in t['subs']:
+            if sub.get('provide_size') is not None:
+                sub['provide_size'] = t['size']
+    sc['transfers'].append({'type': 'delete', 'size': 0, 'subs': [{}]})
+    n = len(sc['transfers'])
+    v = rng.randrange(n - 1)
+    rngs = download_ranges(sc['transfers'][v]['size'], cfg)
+    r = rng.choice(rngs)
+    kind = rng.choice(['stream', 's3'])
+    if kind == 'stream':
+        sc['faults'].append({'site': 'stream', 'key': 'o%d' % v, 'range': r, 'attempt': 0,
+                             'at': rng.randint(0, 2), 'exc': 'client'})
+    else:
+        sc['faults'].append({'site': 's3', 'op': 'get_object', 'key': 'o%d' % v, 'range': r,
+                             'when': 'before', 'exc': 'client'})
+    if rng.random() < 0.7:
+        sc['faults'].append({'site': 's3', 'op': 'delete_object', 'key': 'del%d' % (n - 1),
+                             'when': 'before', 'exc': 'client'})
+    sc['knobs']['latency'] = wchoice(rng, [('none', 2), ('random', 3), ('slow_first', 1)])
+    sc['strategy'] = gen_strategy(rng, est_steps(sc['transfers'], cfg))
+    sc['max_steps'] = 60 * est_steps(sc['transfers'], cfg) + 20000
+    order = list(range(n))
+    rng.shuffle(order)
+    script = [['submit', i] for i in order]
+    if rng.random() < 0.7:
+        script += [['shutdown']] + [['result', i] for i in range(n)]
+    else:
+        script = [['use_with']] + script
+    sc['driver'] = script
+    return sc
+
+
 def gen_C18(rng):
+    if rng.random() < 0.15:
+        return io_pressure(rng)
     sc = base(rng, ALL_TYPES, nmax=4, tight=rng.random() < 0.4, short_reads=True,
               maxsize=28)
     while len(sc['transfers']) < 2:
